@@ -49,15 +49,29 @@ def parse_csv(path: Union[str, Path], **kwargs) -> List[DataSet]:
         DataFrame,
         read_csv,
     )
+    from pandas.errors import ParserError
 
     _validate_path(path)
 
+    def read(**kwargs) -> DataFrame:
+        try:
+            return read_csv(path, engine="python", **kwargs)
+        except ParserError:
+            # E.g., a file that uses another character than a comma as the
+            # separator and a decimal comma in some but not all of the cells,
+            # which means that the number of commas varies from row to row.
+            # Returning a single column triggers the detection of the
+            # separator below.
+            if "sep" in kwargs:
+                raise
+            return DataFrame({"": []})
+
     df: DataFrame
     try:
-        df = read_csv(path, engine="python", **kwargs)
+        df = read(**kwargs)
     except UnicodeDecodeError:
         kwargs["encoding"] = "latin-1"
-        df = read_csv(path, engine="python", **kwargs)
+        df = read(**kwargs)
 
     if len(df.columns) == 1:
         separators: List[str] = [
